@@ -136,4 +136,35 @@ impl Gf {
         }
         p
     }
+    pub fn inv(&self, a: u8) -> u8 {
+        self.alog[(255 - self.log[a as usize] as usize) % 255]
+    }
+    /// error values e_0..e_{k-1} (e_d = coefficient of x^d) with sum_d e_d alpha^(j d) = syn[j-1], j = 1..k
+    pub fn solve_syndromes(&self, syn: &[u8]) -> Option<Vec<u8>> {
+        let k = syn.len();
+        let mut a: Vec<Vec<u8>> = (1..=k).map(|j| (0..k).map(|d| self.pow(j * d)).collect()).collect();
+        let mut b = syn.to_vec();
+        for col in 0..k {
+            let piv = (col..k).find(|r| a[*r][col] != 0)?;
+            a.swap(col, piv);
+            b.swap(col, piv);
+            let inv = self.inv(a[col][col]);
+            for c in col..k {
+                a[col][c] = self.mul(a[col][c], inv);
+            }
+            b[col] = self.mul(b[col], inv);
+            for r in 0..k {
+                if r != col && a[r][col] != 0 {
+                    let f = a[r][col];
+                    for c in col..k {
+                        let t = self.mul(f, a[col][c]);
+                        a[r][c] ^= t;
+                    }
+                    let t = self.mul(f, b[col]);
+                    b[r] ^= t;
+                }
+            }
+        }
+        Some(b)
+    }
 }
